@@ -114,4 +114,185 @@ theorem nodup_authChainDiff {o : Orders} (ho : o.Valid) (chains : List (List Id)
         · simp at hxe; apply hk.1; rw [← hxe]; exact List.mem_map_of_mem hx
         · cases hxe
       · cases hb
+/-! ### `separate` -/
+
+/-- The `(key, id, count)` triples in the order the two nested loops of `separate` visit them. -/
+def triples (o : Orders) (occ : List (SKey × List (Id × Nat))) : List (SKey × (Id × Nat)) :=
+  (o.occ.sh occ).flatMap (fun kv => ((o.occIn kv.1).sh kv.2).map (fun ic => (kv.1, ic)))
+
+def sepFold (n : Nat) (T : List (SKey × (Id × Nat))) (acc : StateMap × List (SKey × List Id)) :
+    StateMap × List (SKey × List Id) :=
+  T.foldl (fun acc t => separateStep n t.1 acc t.2) acc
+
+theorem separate_eq_sepFold (o : Orders) (sets : List StateMap) :
+    separate o sets = sepFold sets.length (triples o (occurrences sets)) ([], []) := by
+  unfold separate triples sepFold
+  generalize o.occ.sh (occurrences sets) = l
+  generalize (([], []) : StateMap × List (SKey × List Id)) = acc
+  induction l generalizing acc with
+  | nil => rfl
+  | cons a t ih =>
+    simp only [List.foldl_cons, List.flatMap_cons, List.foldl_append, List.foldl_map]
+    exact ih _
+
+theorem mem_triples {o : Orders} (ho : o.Valid) {occ : List (SKey × List (Id × Nat))}
+    {k : SKey} {v : Id} {c : Nat} :
+    (k, (v, c)) ∈ triples o occ ↔ ∃ m, (k, m) ∈ occ ∧ (v, c) ∈ m := by
+  unfold triples
+  simp only [List.mem_flatMap, List.mem_map, (ho.occ _).mem_iff]
+  constructor
+  · rintro ⟨⟨k', m⟩, hm, ⟨ic, hic, he⟩⟩
+    simp only [Prod.mk.injEq] at he
+    obtain ⟨h1, h2⟩ := he
+    subst h1; subst h2
+    exact ⟨m, hm, ((ho.occIn _) _).mem_iff.mp hic⟩
+  · rintro ⟨m, hm, hvc⟩
+    exact ⟨(k, m), hm, (v, c), ((ho.occIn _) _).mem_iff.mpr hvc, rfl⟩
+
+/-! `sepFold` -/
+
+theorem sepFold_clean_sound (n : Nat) : ∀ (T : List (SKey × (Id × Nat))) (acc) (k : SKey) (v : Id),
+    AL.get (sepFold n T acc).1 k = some v → (k, (v, n)) ∈ T ∨ AL.get acc.1 k = some v := by
+  intro T
+  induction T with
+  | nil => intro acc k v h; exact .inr h
+  | cons t T ih =>
+    intro acc k v h
+    obtain ⟨tk, tv, tc⟩ := t
+    simp only [sepFold, List.foldl_cons] at h
+    rcases ih _ k v h with h1 | h1
+    · exact .inl (List.mem_cons_of_mem _ h1)
+    · simp only [separateStep] at h1
+      split at h1
+      next hc =>
+        simp only [AL.get_insert] at h1
+        split at h1
+        next hk =>
+          simp at h1; subst h1; subst hk
+          have hc' : tc = n := hc
+          subst hc'; exact .inl (by simp)
+        next => exact .inr h1
+      next => exact .inr h1
+
+theorem sepFold_clean_mono (n : Nat) : ∀ (T : List (SKey × (Id × Nat))) (acc) (k : SKey),
+    (AL.get acc.1 k).isSome → (AL.get (sepFold n T acc).1 k).isSome := by
+  intro T
+  induction T with
+  | nil => intro acc k h; exact h
+  | cons t T ih =>
+    intro acc k h
+    simp only [sepFold, List.foldl_cons]
+    apply ih
+    simp only [separateStep]
+    split
+    · simp only [AL.get_insert]; split <;> simp [h]
+    · exact h
+
+theorem sepFold_clean_complete (n : Nat) : ∀ (T : List (SKey × (Id × Nat))) (acc) (k : SKey) (v : Id),
+    (k, (v, n)) ∈ T → (AL.get (sepFold n T acc).1 k).isSome := by
+  intro T
+  induction T with
+  | nil => intro acc k v h; cases h
+  | cons t T ih =>
+    intro acc k v h
+    simp only [sepFold, List.foldl_cons]
+    rcases List.mem_cons.mp h with h | h
+    · subst h
+      apply sepFold_clean_mono
+      simp [separateStep, AL.get_insert_self]
+    · exact ih _ k v h
+
+def confIds (cf : List (SKey × List Id)) : List Id := (cf.map (·.2)).flatten
+
+theorem confIds_confPush : ∀ (cf : List (SKey × List Id)) (k : SKey) (v x : Id),
+    x ∈ confIds (confPush cf k v) ↔ x = v ∨ x ∈ confIds cf
+  | [], k, v, x => by simp [confPush, confIds]
+  | (q, m) :: t, k, v, x => by
+    have ih := confIds_confPush t k v x
+    simp only [confIds] at ih ⊢
+    by_cases hq : q = k
+    · simp only [confPush, hq, if_true, List.map_cons, List.flatten_cons, List.mem_append,
+        List.mem_singleton]
+      constructor
+      · rintro ((h | h) | h); exact .inr (.inl h); exact .inl h; exact .inr (.inr h)
+      · rintro (h | h | h); exact .inl (.inr h); exact .inl (.inl h); exact .inr h
+    · simp only [confPush, hq, if_false, List.map_cons, List.flatten_cons, List.mem_append, ih]
+      constructor
+      · rintro (h | h | h); exact .inr (.inl h); exact .inl h; exact .inr (.inr h)
+      · rintro (h | h | h); exact .inr (.inl h); exact .inl h; exact .inr (.inr h)
+
+theorem sepFold_conf (n : Nat) : ∀ (T : List (SKey × (Id × Nat))) (acc) (x : Id),
+    x ∈ confIds (sepFold n T acc).2 ↔ (∃ k c, (k, (x, c)) ∈ T ∧ c ≠ n) ∨ x ∈ confIds acc.2 := by
+  intro T
+  induction T with
+  | nil => intro acc x; simp [sepFold]
+  | cons t T ih =>
+    intro acc x
+    obtain ⟨tk, tv, tc⟩ := t
+    simp only [sepFold, List.foldl_cons]
+    have := ih (separateStep n tk acc (tv, tc)) x
+    simp only [sepFold] at this
+    rw [this]
+    simp only [separateStep]
+    by_cases hc : tc = n
+    · simp only [hc, if_true, List.mem_cons, Prod.mk.injEq]
+      constructor
+      · rintro (⟨k, c, h1, h2⟩ | h); exact .inl ⟨k, c, .inr h1, h2⟩; exact .inr h
+      · rintro (⟨k, c, (⟨_, _, h3⟩ | h1), h2⟩ | h)
+        · exact absurd h3 h2
+        · exact .inl ⟨k, c, h1, h2⟩
+        · exact .inr h
+    · simp only [hc, if_false, confIds_confPush, List.mem_cons, Prod.mk.injEq]
+      constructor
+      · rintro (⟨k, c, h1, h2⟩ | h | h)
+        · exact .inl ⟨k, c, .inr h1, h2⟩
+        · exact .inl ⟨tk, tc, .inl ⟨rfl, h, rfl⟩, hc⟩
+        · exact .inr h
+      · rintro (⟨k, c, (⟨_, h3, h4⟩ | h1), h2⟩ | h)
+        · exact .inr (.inl h3)
+        · exact .inl ⟨k, c, h1, h2⟩
+        · exact .inr (.inr h)
+
+theorem sepFold_conf_nil (n : Nat) : ∀ (T : List (SKey × (Id × Nat))) (acc),
+    (∀ t ∈ T, t.2.2 = n) → (sepFold n T acc).2 = acc.2 := by
+  intro T
+  induction T with
+  | nil => intro acc _; rfl
+  | cons t T ih =>
+    intro acc h
+    simp only [sepFold, List.foldl_cons]
+    have := ih (separateStep n t.1 acc t.2) (fun t' ht' => h t' (List.mem_cons_of_mem _ ht'))
+    simp only [sepFold] at this
+    rw [this]
+    simp [separateStep, h t (by simp)]
+
+theorem confPush_ne_nil (cf : List (SKey × List Id)) (k : SKey) (v : Id) : confPush cf k v ≠ [] := by
+  cases cf with
+  | nil => simp [confPush]
+  | cons a t => obtain ⟨q, m⟩ := a; simp only [confPush]; split <;> simp
+
+theorem sepFold_conf_ne_nil (n : Nat) : ∀ (T : List (SKey × (Id × Nat))) (acc),
+    acc.2 ≠ [] → (sepFold n T acc).2 ≠ [] := by
+  intro T
+  induction T with
+  | nil => intro acc h; exact h
+  | cons t T ih =>
+    intro acc h
+    simp only [sepFold, List.foldl_cons]
+    apply ih
+    simp only [separateStep]
+    split
+    · exact h
+    · exact confPush_ne_nil _ _ _
+
+theorem sepFold_conf_isEmpty (n : Nat) (T : List (SKey × (Id × Nat))) :
+    (sepFold n T ([], [])).2 = [] ↔ ∀ t ∈ T, t.2.2 = n := by
+  constructor
+  · intro h t ht
+    apply Classical.byContradiction
+    intro hc
+    have := (sepFold_conf n T ([], []) t.2.1).mpr (.inl ⟨t.1, t.2.2, ht, hc⟩)
+    rw [h] at this
+    simp [confIds] at this
+  · intro h; exact sepFold_conf_nil n T _ h
 end Ruma.StateRes
